@@ -208,9 +208,14 @@ func TestShapeOps(t *testing.T) {
 				}
 			})
 		}
-		// Broadcast to every target
-		for _, target := range all {
-			if !thorough() && rng.Intn(3) != 0 {
+		// Broadcast to every target; the quick tier adds all rank-4 targets with sizes <= 2, because the interplay of new
+		// leading dimensions with expanded size-1 dimensions only shows when the target has >= 2 more dimensions
+		targets := all
+		if !thorough() {
+			targets = append(append([][]int{}, all...), shapes(4, 4, 2)...)
+		}
+		for _, target := range targets {
+			if !thorough() && len(target) < 4 && rng.Intn(3) != 0 {
 				continue
 			}
 			guard(r, "Broadcast", func() {
